@@ -313,3 +313,301 @@ Proof.
   destruct (db_ttl (purge d now) k') as [t0|] eqn:T'; [|reflexivity].
   pose proof (expired_purge_false d now k' W) as X. unfold expired in X. rewrite T' in X. rewrite X. reflexivity.
 Qed.
+
+(* ------------------------------------------------------------------ C01_unknown_key_commands_frame *)
+Lemma fr_unch V V' k : unchanged V V' -> V' k = V k.
+Proof. intros U. apply U. Qed.
+Lemma fr_upd V V' k0 e k : veq V' (upd V k0 e) -> k <> k0 -> V' k = V k.
+Proof. intros U N. rewrite U. apply upd_other. exact N. Qed.
+Lemma fr_written V V' now k0 v t k : veq V' (written V now k0 v t) -> k <> k0 -> V' k = V k.
+Proof.
+  intros U N. rewrite U. unfold written. destruct t as [dl|]; [destruct (dl <=? now)|]; apply upd_other; exact N.
+Qed.
+Lemma fr_mset ps : forall V k, ~ In k (map fst ps) -> mset_view V ps k = V k.
+Proof.
+  induction ps as [|p ps IH]; intros V k N; [reflexivity|].
+  unfold mset_view in *. cbn [fold_left]. rewrite IH by (intros X; apply N; right; exact X).
+  apply upd_other. intros E. apply N. left. symmetry. exact E.
+Qed.
+Lemma pairs_keys l : forall ps, pairs_of l = Some ps -> map fst ps = odd_positions l.
+Proof.
+  assert (G : forall n l, (List.length l <= n)%nat -> forall ps, pairs_of l = Some ps -> map fst ps = odd_positions l).
+  { induction n as [|n IH]; intros l0 L ps H.
+    - destruct l0; [inversion H; reflexivity|cbn in L; lia].
+    - destruct l0 as [|a [|b l1]]; [inversion H; reflexivity|discriminate H|].
+      cbn [pairs_of] in H. destruct (pairs_of l1) as [ps1|] eqn:E; [|discriminate H].
+      inversion H; subst. cbn [map fst odd_positions]. f_equal. apply IH; [cbn in L; lia|exact E]. }
+  intros ps. apply (G (List.length l)). lia.
+Qed.
+Lemma mentions_false keys k : ~ In k keys -> mentions keys k = false.
+Proof.
+  intros N. unfold mentions. destruct (existsb (bytes_eqb k) keys) eqn:E; [|reflexivity].
+  apply existsb_exists in E as (x & Hx & Ex). apply bytes_eqb_eq in Ex. subst. contradiction.
+Qed.
+
+Ltac fr_split :=
+  repeat match goal with
+  | H : _ /\ _ |- _ => destruct H
+  | H : _ \/ _ |- _ => destruct H
+  | H : exists _, _ |- _ => destruct H
+  | H : context [match ?x with _ => _ end] |- _ => destruct x
+  | H : context [if ?x then _ else _] |- _ => destruct x
+  end.
+Ltac fr_done :=
+  unfold rejected, rejected_any, wrongtype in *; fr_split;
+  first [ apply fr_unch; assumption | eapply fr_upd; eassumption | eapply fr_written; eassumption ].
+
+Section Frames.
+  Variables (rd : reading) (V V' : kview) (now : Z) (r : reply) (k : bytes).
+  Lemma fr_get k0 : ref_get V k0 r V' -> V' k = V k.
+  Proof. unfold ref_get. intros H. fr_done. Qed.
+  Lemma fr_strlen k0 : ref_strlen V k0 r V' -> V' k = V k.
+  Proof. unfold ref_strlen. intros H. fr_done. Qed.
+  Lemma fr_type k0 : ref_type V k0 r V' -> V' k = V k.
+  Proof. unfold ref_type. intros H. fr_done. Qed.
+  Lemma fr_getrange k0 s e : ref_getrange rd V k0 s e r V' -> V' k = V k.
+  Proof. unfold ref_getrange. intros H. destruct H as (U & _). apply fr_unch; exact U. Qed.
+  Lemma fr_mget ks : ref_mget V ks r V' -> V' k = V k.
+  Proof. unfold ref_mget. intros H. destruct ks; fr_done. Qed.
+  Lemma fr_exists ks : ref_exists V ks r V' -> V' k = V k.
+  Proof. unfold ref_exists. intros H. destruct ks; fr_done. Qed.
+  Lemma fr_keys p : ref_keys V p r V' -> V' k = V k.
+  Proof. unfold ref_keys. intros (U & _). apply fr_unch; exact U. Qed.
+  Lemma fr_ping rest : ref_ping V rest r V' -> V' k = V k.
+  Proof. unfold ref_ping. intros H. fr_done. Qed.
+  Lemma fr_set k0 v opts : ref_set rd V now k0 v opts r V' -> k <> k0 -> V' k = V k.
+  Proof. unfold ref_set. cbv zeta. intros H N. fr_done. Qed.
+  Lemma fr_setnx k0 v : ref_setnx V k0 v r V' -> k <> k0 -> V' k = V k.
+  Proof. unfold ref_setnx. intros H N. fr_done. Qed.
+  Lemma fr_setex k0 s v : ref_setex rd V now k0 s v r V' -> k <> k0 -> V' k = V k.
+  Proof. unfold ref_setex. intros H N. fr_done. Qed.
+  Lemma fr_append k0 v : ref_append V k0 v r V' -> k <> k0 -> V' k = V k.
+  Proof. unfold ref_append. intros H N. fr_done. Qed.
+  Lemma fr_setrange k0 o v : ref_setrange rd V k0 o v r V' -> k <> k0 -> V' k = V k.
+  Proof. unfold ref_setrange. cbv zeta. intros H N. fr_done. Qed.
+  Lemma fr_incr k0 dl : ref_incr rd V k0 dl r V' -> k <> k0 -> V' k = V k.
+  Proof. unfold ref_incr. intros H N. fr_done. Qed.
+  Lemma fr_incrby k0 ng a : ref_incrby rd V ng k0 a r V' -> k <> k0 -> V' k = V k.
+  Proof.
+    unfold ref_incrby. intros H N. destruct (rd a) as [n|]; [|fr_done].
+    destruct (in_int64 (if ng then - n else n)); [eapply fr_incr; eauto|fr_done].
+  Qed.
+  Lemma fr_incrbyfloat fl ad fm k0 a : ref_incrbyfloat fl ad fm V k0 a r V' -> k <> k0 -> V' k = V k.
+  Proof. unfold ref_incrbyfloat. cbv zeta. intros H N. fr_done. Qed.
+  Lemma fr_rename o n : ref_rename V o n r V' -> k <> o -> k <> n -> V' k = V k.
+  Proof.
+    unfold ref_rename. intros H N1 N2. destruct (V o); [|fr_done].
+    destruct H as (_ & U). rewrite U. rewrite !upd_other by assumption. reflexivity.
+  Qed.
+  Lemma fr_del ks : ref_del V ks r V' -> ~ In k ks -> V' k = V k.
+  Proof.
+    unfold ref_del. intros H N. destruct ks as [|k0 ks]; [fr_done|].
+    destruct H as (_ & U). rewrite U. rewrite mentions_false by exact N. reflexivity.
+  Qed.
+  Lemma fr_mset_cmd rest : ref_mset V rest r V' -> ~ In k (odd_positions rest) -> V' k = V k.
+  Proof.
+    unfold ref_mset. intros H N. destruct (pairs_of rest) as [[|p ps]|] eqn:P; try fr_done.
+    destruct H as (_ & U). rewrite U. apply fr_mset. rewrite (pairs_keys _ _ P). exact N.
+  Qed.
+End Frames.
+
+Theorem commands_frame d now nowms args hint r d' k :
+  db_wf d -> c01_command args = true -> exec d now nowms args hint = (r, d') ->
+  ~ In k (keys_named args) -> view d' now k = view d now k.
+Proof.
+  intros W HC H Hk.
+  pose proof (strings_step_refines _ _ _ _ _ _ _ W H) as S. clear H.
+  destruct args as [|c rest]; [discriminate HC|].
+  unfold ref_step in S. cbv zeta in S. unfold keys_named in Hk. cbv zeta in Hk.
+  Ltac rej_fr S := unfold rejected in S; destruct S as (_ & S); apply fr_unch; exact S.
+  destruct (is (lower c) (B "get")) eqn:E1.
+  { unfold is in E1; apply bytes_eqb_eq in E1; try rewrite E1 in Hk.
+    change (~ In k (firstn 1 rest)) in Hk.
+    destruct rest as [|k0 [|? ?]]; [rej_fr S|idtac|rej_fr S].
+    eapply fr_get; exact S. }
+  destruct (is (lower c) (B "set")) eqn:E2.
+  { unfold is in E2; apply bytes_eqb_eq in E2; try rewrite E2 in Hk.
+    change (~ In k (firstn 1 rest)) in Hk.
+    destruct rest as [|k0 [|v0 opts]]; [rej_fr S|rej_fr S|].
+    eapply fr_set; [exact S|intros ->; apply Hk; left; reflexivity]. }
+  destruct (is (lower c) (B "setnx")) eqn:E3.
+  { unfold is in E3; apply bytes_eqb_eq in E3; try rewrite E3 in Hk.
+    change (~ In k (firstn 1 rest)) in Hk.
+    destruct rest as [|k0 [|a1 [|? ?]]]; [rej_fr S|rej_fr S|idtac|rej_fr S].
+    eapply fr_setnx; [exact S|intros ->; apply Hk; left; reflexivity]. }
+  destruct (is (lower c) (B "setex")) eqn:E4.
+  { unfold is in E4; apply bytes_eqb_eq in E4; try rewrite E4 in Hk.
+    change (~ In k (firstn 1 rest)) in Hk.
+    destruct rest as [|k0 [|a1 [|a2 [|? ?]]]]; [rej_fr S|rej_fr S|rej_fr S|idtac|rej_fr S].
+    eapply fr_setex; [exact S|intros ->; apply Hk; left; reflexivity]. }
+  destruct (is (lower c) (B "mset")) eqn:E5.
+  { unfold is in E5; apply bytes_eqb_eq in E5; try rewrite E5 in Hk.
+    change (~ In k (odd_positions rest)) in Hk.
+    eapply fr_mset_cmd; [exact S|exact Hk]. }
+  destruct (is (lower c) (B "mget")) eqn:E6.
+  { unfold is in E6; apply bytes_eqb_eq in E6; try rewrite E6 in Hk.
+    change (~ In k rest) in Hk.
+    eapply fr_mget; exact S. }
+  destruct (is (lower c) (B "append")) eqn:E7.
+  { unfold is in E7; apply bytes_eqb_eq in E7; try rewrite E7 in Hk.
+    change (~ In k (firstn 1 rest)) in Hk.
+    destruct rest as [|k0 [|a1 [|? ?]]]; [rej_fr S|rej_fr S|idtac|rej_fr S].
+    eapply fr_append; [exact S|intros ->; apply Hk; left; reflexivity]. }
+  destruct (is (lower c) (B "strlen")) eqn:E8.
+  { unfold is in E8; apply bytes_eqb_eq in E8; try rewrite E8 in Hk.
+    change (~ In k (firstn 1 rest)) in Hk.
+    destruct rest as [|k0 [|? ?]]; [rej_fr S|idtac|rej_fr S].
+    eapply fr_strlen; exact S. }
+  destruct (is (lower c) (B "getrange")) eqn:E9.
+  { unfold is in E9; apply bytes_eqb_eq in E9; try rewrite E9 in Hk.
+    change (~ In k (firstn 1 rest)) in Hk.
+    destruct rest as [|k0 [|a1 [|a2 [|? ?]]]]; [rej_fr S|rej_fr S|rej_fr S|idtac|rej_fr S].
+    eapply fr_getrange; exact S. }
+  destruct (is (lower c) (B "setrange")) eqn:E10.
+  { unfold is in E10; apply bytes_eqb_eq in E10; try rewrite E10 in Hk.
+    change (~ In k (firstn 1 rest)) in Hk.
+    destruct rest as [|k0 [|a1 [|a2 [|? ?]]]]; [rej_fr S|rej_fr S|rej_fr S|idtac|rej_fr S].
+    eapply fr_setrange; [exact S|intros ->; apply Hk; left; reflexivity]. }
+  destruct (is (lower c) (B "incr")) eqn:E11.
+  { unfold is in E11; apply bytes_eqb_eq in E11; try rewrite E11 in Hk.
+    change (~ In k (firstn 1 rest)) in Hk.
+    destruct rest as [|k0 [|? ?]]; [rej_fr S|idtac|rej_fr S].
+    eapply fr_incr; [exact S|intros ->; apply Hk; left; reflexivity]. }
+  destruct (is (lower c) (B "decr")) eqn:E12.
+  { unfold is in E12; apply bytes_eqb_eq in E12; try rewrite E12 in Hk.
+    change (~ In k (firstn 1 rest)) in Hk.
+    destruct rest as [|k0 [|? ?]]; [rej_fr S|idtac|rej_fr S].
+    eapply fr_incr; [exact S|intros ->; apply Hk; left; reflexivity]. }
+  destruct (is (lower c) (B "incrby")) eqn:E13.
+  { unfold is in E13; apply bytes_eqb_eq in E13; try rewrite E13 in Hk.
+    change (~ In k (firstn 1 rest)) in Hk.
+    destruct rest as [|k0 [|a1 [|? ?]]]; [rej_fr S|rej_fr S|idtac|rej_fr S].
+    eapply fr_incrby; [exact S|intros ->; apply Hk; left; reflexivity]. }
+  destruct (is (lower c) (B "decrby")) eqn:E14.
+  { unfold is in E14; apply bytes_eqb_eq in E14; try rewrite E14 in Hk.
+    change (~ In k (firstn 1 rest)) in Hk.
+    destruct rest as [|k0 [|a1 [|? ?]]]; [rej_fr S|rej_fr S|idtac|rej_fr S].
+    eapply fr_incrby; [exact S|intros ->; apply Hk; left; reflexivity]. }
+  destruct (is (lower c) (B "incrbyfloat")) eqn:E15.
+  { unfold is in E15; apply bytes_eqb_eq in E15; try rewrite E15 in Hk.
+    change (~ In k (firstn 1 rest)) in Hk.
+    destruct rest as [|k0 [|a1 [|? ?]]]; [rej_fr S|rej_fr S|idtac|rej_fr S].
+    eapply fr_incrbyfloat; [exact S|intros ->; apply Hk; left; reflexivity]. }
+  destruct (is (lower c) (B "del")) eqn:E16.
+  { unfold is in E16; apply bytes_eqb_eq in E16; try rewrite E16 in Hk.
+    change (~ In k rest) in Hk.
+    eapply fr_del; [exact S|exact Hk]. }
+  destruct (is (lower c) (B "exists")) eqn:E17.
+  { unfold is in E17; apply bytes_eqb_eq in E17; try rewrite E17 in Hk.
+    change (~ In k rest) in Hk.
+    eapply fr_exists; exact S. }
+  destruct (is (lower c) (B "type")) eqn:E18.
+  { unfold is in E18; apply bytes_eqb_eq in E18; try rewrite E18 in Hk.
+    change (~ In k (firstn 1 rest)) in Hk.
+    destruct rest as [|k0 [|? ?]]; [rej_fr S|idtac|rej_fr S].
+    eapply fr_type; exact S. }
+  destruct (is (lower c) (B "rename")) eqn:E19.
+  { unfold is in E19; apply bytes_eqb_eq in E19; try rewrite E19 in Hk.
+    change (~ In k (firstn 2 rest)) in Hk.
+    destruct rest as [|k0 [|a1 [|? ?]]]; [rej_fr S|rej_fr S|idtac|rej_fr S].
+    eapply fr_rename; [exact S|intros ->; apply Hk; left; reflexivity|intros ->; apply Hk; right; left; reflexivity]. }
+  destruct (is (lower c) (B "keys")) eqn:E20.
+  { unfold is in E20; apply bytes_eqb_eq in E20; try rewrite E20 in Hk.
+    change (~ In k []) in Hk.
+    destruct rest as [|k0 [|? ?]]; [rej_fr S|idtac|rej_fr S].
+    eapply fr_keys; exact S. }
+  destruct (is (lower c) (B "ping")) eqn:E21.
+  { unfold is in E21; apply bytes_eqb_eq in E21; try rewrite E21 in Hk.
+    change (~ In k []) in Hk.
+    eapply fr_ping; exact S. }
+  unfold c01_command, c01_names in HC. cbn [existsb] in HC.
+  rewrite E1, E2, E3, E4, E5, E6, E7, E8, E9, E10, E11, E12, E13, E14, E15, E16, E17, E18, E19, E20, E21 in HC. discriminate HC.
+Qed.
+
+(* ------------------------------------------------------------------ C01_incr_exact_or_rejected *)
+Inductive incr_form (k : bytes) : list bytes -> Z -> Prop :=
+| IF_incr c : lower c = B "incr" -> incr_form k [c; k] 1
+| IF_decr c : lower c = B "decr" -> incr_form k [c; k] (-1)
+| IF_incrby c a n : lower c = B "incrby" -> atoi64 a = Some n -> incr_form k [c; k; a] n
+| IF_decrby c a n : lower c = B "decrby" -> atoi64 a = Some n -> in_int64 (- n) = true ->
+    incr_form k [c; k; a] (- n).
+
+Lemma incr_form_clause d now nowms args hint k delta r d' :
+  db_wf d -> incr_form k args delta -> exec d now nowms args hint = (r, d') ->
+  ref_incr atoi64 (view d now) k delta r (view d' now).
+Proof.
+  intros W F H. pose proof (strings_step_refines _ _ _ _ _ _ _ W H) as S.
+  destruct F as [c N|c N|c a n N A|c a n N A I].
+  - eapply ref_step_incr; eauto.
+  - eapply ref_step_decr; eauto.
+  - apply (ref_step_incrby _ _ _ _ _ _ _ _ _ N) in S. unfold ref_incrby in S. rewrite A in S.
+    assert (R : in_int64 n = true) by (apply atoi64_admissible in A; tauto). rewrite R in S. exact S.
+  - apply (ref_step_decrby _ _ _ _ _ _ _ _ _ N) in S. unfold ref_incrby in S. rewrite A, I in S. exact S.
+Qed.
+
+Theorem incr_exact_or_rejected d now nowms args hint k b t n delta r d' :
+  db_wf d -> view d now k = Some (VStr b, t) -> atoi64 b = Some n -> incr_form k args delta ->
+  exec d now nowms args hint = (r, d') ->
+  (in_int64 (n + delta) = true /\ r = RInt (n + delta) /\
+   view d' now k = Some (VStr (z_to_dec (n + delta)), t) /\
+   atoi64 (z_to_dec (n + delta)) = Some (n + delta))
+  \/ (in_int64 (n + delta) = false /\ is_error r /\ forall k', view d' now k' = view d now k').
+Proof.
+  intros W HK A F H. pose proof (incr_form_clause _ _ _ _ _ _ _ _ _ W F H) as S.
+  unfold ref_incr, slot_of in S. rewrite HK, A in S.
+  destruct (in_int64 (n + delta)) eqn:R.
+  - left. destruct S as (R1 & U). repeat split; try assumption.
+    + rewrite U. apply upd_same.
+    + apply atoi64_z_to_dec. exact R.
+  - right. destruct S as (R1 & U). repeat split; assumption.
+Qed.
+
+(* on a missing key the counter starts from 0 *)
+Theorem incr_missing d now nowms args hint k delta r d' :
+  db_wf d -> view d now k = None -> incr_form k args delta ->
+  exec d now nowms args hint = (r, d') ->
+  r = RInt delta /\ view d' now k = Some (VStr (z_to_dec delta), None).
+Proof.
+  intros W HK F H. pose proof (incr_form_clause _ _ _ _ _ _ _ _ _ W F H) as S.
+  unfold ref_incr, slot_of in S. rewrite HK in S. destruct S as (R1 & U).
+  split; [exact R1|]. rewrite U. apply upd_same.
+Qed.
+
+(* ------------------------------------------------------------------ the decimal library against Z *)
+(* [dec_add] is exact:  m1*10^-e1 + m2*10^-e2 = m*10^-e , stated over Z after scaling *)
+Lemma dec_norm_value fuel : forall m e, (fuel <= N.to_nat e)%nat ->
+  let '(m', e') := dec_norm fuel m e in (e' <= e)%N /\ m = m' * 10 ^ Z.of_N (e - e').
+Proof.
+  induction fuel as [|f IH]; intros m e L.
+  - cbn. split; [lia|]. replace (e - e)%N with 0%N by lia. cbn. lia.
+  - cbn [dec_norm]. destruct (e =? 0)%N eqn:E0.
+    + split; [lia|]. replace (e - e)%N with 0%N by lia. cbn. lia.
+    + destruct (m mod 10 =? 0) eqn:M.
+      * specialize (IH (m / 10) (e - 1)%N). destruct (dec_norm f (m / 10) (e - 1)%N) as [m' e'].
+        destruct IH as (L1 & V1); [lia|]. split; [lia|].
+        replace (Z.of_N (e - e')) with (Z.of_N (e - 1 - e') + 1) by lia.
+        rewrite Z.pow_add_r by lia. rewrite Z.pow_1_r.
+        assert (m = 10 * (m / 10)) by (pose proof (Z.div_mod m 10); lia). lia.
+      * split; [lia|]. replace (e - e)%N with 0%N by lia. cbn. lia.
+Qed.
+
+Theorem dec_add_exact m1 e1 m2 e2 :
+  let '(m, e) := dec_add m1 e1 m2 e2 in
+  let E := N.max e1 e2 in
+  (e <= E)%N /\ m * 10 ^ Z.of_N (E - e) = m1 * 10 ^ Z.of_N (E - e1) + m2 * 10 ^ Z.of_N (E - e2).
+Proof.
+  unfold dec_add, dec_normalize.
+  pose proof (dec_norm_value (N.to_nat (N.max e1 e2))
+                (m1 * 10 ^ Z.of_N (N.max e1 e2 - e1) + m2 * 10 ^ Z.of_N (N.max e1 e2 - e2)) (N.max e1 e2)) as X.
+  destruct (dec_norm _ _ _) as [m e]. destruct X as (L & V); [lia|]. cbv zeta. split; [exact L|]. lia.
+Qed.
+
+Example fmt_dec_examples :
+  fmt_dec (-25) 2 = B "-0.25" /\ fmt_dec 5 1 = B "0.5" /\ fmt_dec 100 0 = B "100" /\
+  fmt_dec 0 0 = B "0" /\ fmt_dec 10125 3 = B "10.125" /\
+  classify_float (B "007.50") = FIn 75 1 /\ classify_float (B "-0") = FOut /\
+  classify_float (B "0.1") = FOut /\ classify_float (B "1e3") = FOut /\
+  classify_float (B "abc") = FOut /\ classify_float (B "hello") = FInvalid /\ classify_float (B " 5") = FInvalid /\
+  classify_float (B "") = FInvalid /\
+  classify_float (B "1234567890123456") = FOut /\ classify_float (B "-2.25") = FIn (-225) 2.
+Proof. repeat split; vm_compute; reflexivity. Qed.
